@@ -1201,7 +1201,13 @@ func (r condition) string() string {
 	// begin default presentation
 	// handler ...
 	var raw string
-	if meth := getStringer(r.ex); meth != nil {
+	if xs, ok := stackTypeAliasConverter(r.ex); ok {
+		// Stack or Stack alias (aliases need not have
+		// a String method of their own)
+		raw = xs.String()
+	} else if xc, ok := conditionTypeAliasConverter(r.ex); ok {
+		raw = xc.String()
+	} else if meth := getStringer(r.ex); meth != nil {
 		raw = meth()
 	} else {
 		raw = primitiveStringer(r.ex)
